@@ -208,6 +208,18 @@ class Gen(object):
                               "trunc": True}
         elif kind == "tpctor":
             kw = rng.choice(TP_CTORS)
+            if rng.random() < 0.5:
+                year = rng.randint(1850, 2150)
+                kw = rng.choice([
+                    {"year": year, "month_of_year": rng.randint(1, 12),
+                     "day_of_month": rng.randint(1, 28)},
+                    {"year": year, "day_of_year": rng.randint(1, 360)},
+                    {"year": year, "week_of_year": rng.randint(1, 51),
+                     "day_of_week": rng.randint(1, 7)}])
+                kw = dict(kw, hour_of_day=rng.randint(0, 23),
+                          minute_of_hour=rng.randint(0, 59),
+                          second_of_minute=rng.randint(0, 59),
+                          time_zone_hour=rng.randint(-12, 14))
             self.steps.append({"k": "mk", "id": sid, "t": "tp", "kw": kw})
             self.meta[sid] = {"type": "tp", "year": kw["year"], "safe": False,
                               "trunc": False,
@@ -221,6 +233,18 @@ class Gen(object):
                               and text != "P0Y"}
         elif kind == "durctor":
             kw = rng.choice(DUR_CTORS)
+            if rng.random() < 0.5:
+                # values of random size, not only the fixed list
+                kw = rng.choice([
+                    {"days": rng.randint(-500, 500),
+                     "hours": rng.randint(-50, 50),
+                     "seconds": rng.choice([0, 0.5, rng.randint(-4000,
+                                                                4000)])},
+                    {"weeks": rng.randint(-60, 60)},
+                    {"years": rng.randint(-9, 9),
+                     "months": rng.randint(-30, 30),
+                     "days": rng.randint(0, 40)},
+                    {"minutes": rng.randint(0, 100000) / 4.0}])
             self.steps.append({"k": "mk", "id": sid, "t": "dur", "kw": kw})
             self.meta[sid] = {"type": "dur", "mag": 400}
         elif kind == "tz":
@@ -339,7 +363,8 @@ class Gen(object):
             self.alias_hot = [sid, a, z]
             return
         if r < 0.88:
-            n = rng.choice([0, 0, 1, -1, 12, -13, 25])
+            n = rng.choice([0, 0, 1, -1, 12, -13, 25,
+                            rng.randint(-600, 600)])
             if ma.get("trunc"):
                 return self.op("tp.hash_str", [a], client=client)
             sid = self.op("tp.add_months", [a], [n], result="tp",
@@ -412,13 +437,13 @@ class Gen(object):
             return self.op("dur." + rng.choice(["add", "sub"]), [a, b],
                            result="dur", client=client, mag=mag)
         if r < 0.62:
-            n = rng.choice([0, 1, -1, 2, 3, 7, -12])
+            n = rng.choice([0, 1, -1, 2, 3, 7, -12, rng.randint(-40, 40)])
             return self.op("dur." + rng.choice(["mul", "rmul"]), [a], [n],
                            result="dur", client=client,
                            mag=ma.get("mag", 5) * max(1, abs(n)))
         if r < 0.68:
-            return self.op("dur.floordiv", [a], [rng.choice([1, 2, 7, -3,
-                                                              0])],
+            return self.op("dur.floordiv", [a], [rng.choice(
+                [1, 2, 7, -3, 0, rng.randint(1, 60)])],
                            result="dur", client=client, mag=ma.get("mag", 5))
         if r < 0.74:
             return self.op("dur.abs", [a], result="dur", client=client,
